@@ -218,9 +218,18 @@ func Worker(p *Prop, tier string, deadline time.Time) {
 
 var (
 	rePanic = regexp.MustCompile(`(?m)^(panic: .*|fatal error: .*)$`)
-	reFrame = regexp.MustCompile(`(?m)^\s+/repo/([^\s:]+):(\d+)`)
+	reFrame = regexp.MustCompile(`(?m)^\s+` + regexp.QuoteMeta(repoDir()) + `/([^\s:]+):(\d+)`)
 	reAddr  = regexp.MustCompile(`0x[0-9a-f]+`)
 )
+
+// repoDir is the tree under test (always /repo for the registered commands; VERIF_REPO lets
+// experiments run against a scratch worktree).
+func repoDir() string {
+	if d := os.Getenv("VERIF_REPO"); d != "" {
+		return strings.TrimSuffix(d, "/")
+	}
+	return "/repo"
+}
 
 func crashSig(stderr string) string {
 	msg := "unknown crash"
@@ -392,7 +401,7 @@ func Main(p *Prop, tier string) int {
 					if lastIdx < 0 {
 						harnessErr = fmt.Sprintf("worker died before starting a case of job %s: %s", job, firstLines(se, 6))
 					}
-					if strings.HasSuffix(sig, "@ ?") && !strings.Contains(se, "/repo/") {
+					if strings.HasSuffix(sig, "@ ?") && !strings.Contains(se, repoDir()+"/") {
 						harnessErr = fmt.Sprintf("worker crashed outside the code under test (job %s, case %d): %s", job, lastIdx, firstLines(se, 12))
 					}
 					groups = append(groups, &group{Sig: sig, Atoms: atoms, Count: 1, Example: rp, Job: job})
